@@ -8,6 +8,9 @@
 #include <stdio.h>
 #include <stdarg.h>
 #include <stdlib.h>
+#ifndef OBS
+#define OBS 0
+#endif
 static int vt_fprintf(FILE *f, const char *fmt, uintptr_t a0, uintptr_t a1, uintptr_t a2);
 #define fprintf vt_fprintf
 #include "librfn/mlog.c"
@@ -36,19 +39,40 @@ char *strdup_printf(const char *fmt, ...)
 	va_end(ap); ncalls++;
 	return (char *)fmts[0];	/* any non-NULL token */
 }
+static void dump_prefix_oracle(void);
 static int vt_fprintf(FILE *f, const char *fmt, uintptr_t a0, uintptr_t a1, uintptr_t a2)
 {
 	(void)f;
 	if (ncalls == want_call) { cap_fmt = fmt; cap_a[0] = a0; cap_a[1] = a1; cap_a[2] = a2; }
 	ncalls++;
+#if OBS == 2
+	/* dump-prefix lemma: judge the want_call-th line right here and cut the path, so that the 256-iteration loop of
+	 * mlog_dump need not be unwound - the claim is about the FIRST lines of the dump, for every message count */
+	if (ncalls == want_call + 1) { dump_prefix_oracle(); __CPROVER_assume(0); }
+#endif
 	return 0;
 }
 
-#ifndef OBS
-#define OBS 0
-#endif
 #define FOLD 0x7fffffffull
 static unsigned fold(uint64_t n) { return n < FOLD ? (unsigned)n : (unsigned)(FOLD - 256 + ((n - FOLD) % 256)); }
+
+#ifndef PREFIX
+#define PREFIX 2
+#endif
+static uint64_t g_n, g_n2; static bool g_wrote, g_tracked; static uint32_t g_newslot; static int g_k;
+static void dump_prefix_oracle(void)
+{
+	uint64_t avail = g_n2 < 256 ? g_n2 : 256;
+	VT_ASSERT((uint64_t)g_k < avail);			/* a line is printed only if that many messages are held */
+	uint64_t msg = g_n2 - avail + (uint64_t)g_k;		/* oldest first */
+	uint32_t slot = (uint32_t)(msg % 256);
+	if (g_wrote && slot == g_newslot)
+		VT_ASSERT(cap_fmt == fmts[in.fn] && cap_a[0] == (uintptr_t)in.an[0] && cap_a[1] == (uintptr_t)in.an[1] && cap_a[2] == (uintptr_t)in.an[2]);
+	else
+		VT_ASSERT(g_tracked && cap_fmt == pool + slot && cap_a[0] == 0x1000 + slot && cap_a[1] == 0x2000 + slot && cap_a[2] == 0x3000 + slot);
+	VT_WITNESS(g_n == 257 && g_k == 0);			/* a wrapped log */
+	VT_WITNESS(g_n == FOLD + 5 && g_k == 1 && g_wrote);
+}
 
 void h_step(void)
 {
@@ -86,7 +110,7 @@ void h_step(void)
 		VT_ASSERT((s != 0) == expect_line);		/* every other k, including negative, yields NULL */
 		VT_ASSERT(ncalls == (expect_line ? 1u : 0u));
 	}
-#else
+#elif OBS == 1
 	{
 		__CPROVER_assume(k >= 0 && k < 256);
 		want_call = (unsigned)k;
@@ -94,6 +118,17 @@ void h_step(void)
 		VT_ASSERT(ncalls == avail);			/* the same lines ... */
 		expect_line = (uint64_t)k < avail;
 	}
+#else
+	{
+		__CPROVER_assume(k >= 0 && k < PREFIX);
+		want_call = (unsigned)k;
+		g_n = n; g_n2 = n2; g_wrote = wrote; g_newslot = newslot; g_k = k; g_tracked = tracked;
+		mlog_dump((FILE *)0);				/* paths on which line k is printed end inside the stub */
+		expect_line = (uint64_t)k < avail;
+	}
+#endif
+#if OBS == 2
+	VT_ASSERT(!expect_line);	/* reached only when the dump printed fewer than k+1 lines: then there must be fewer than k+1 messages */
 #endif
 	if (expect_line) {
 		uint64_t msg = n2 - avail + (uint64_t)k;	/* ... oldest first: line k is message n - min(n,256) + k */
@@ -106,7 +141,9 @@ void h_step(void)
 			VT_ASSERT(cap_fmt == pool + slot && cap_a[0] == 0x1000 + slot && cap_a[1] == 0x2000 + slot && cap_a[2] == 0x3000 + slot);
 		}
 	}
-#if defined(N_HI)
+#if OBS == 2
+	VT_WITNESS(n2 == 0 && k == 0);				/* empty log: nothing printed, the path reaches the end */
+#elif defined(N_HI)
 	VT_WITNESS(n == N_HI && k + 1 == (int)avail);
 #elif !defined(OP)
 	VT_WITNESS(n == FOLD - 1 && in.op == 0 && k == 255);	/* the append that folds the counter */
